@@ -8,6 +8,7 @@ import (
 	"strconv"
 	"sync"
 	"sync/atomic"
+	"time"
 )
 
 // Gate scheduler. The instr pass inserts Yield before every synchronisation operation of
@@ -33,6 +34,7 @@ type Sched struct {
 	held   map[uint64]int
 	exempt map[uint64]bool
 	Wait   func() // synctest.Wait
+	closed bool
 	Steps  int
 }
 
@@ -54,6 +56,7 @@ func Uninstall() {
 		return
 	}
 	s.mu.Lock()
+	s.closed = true
 	for g, w := range s.parked {
 		close(w.ch)
 		delete(s.parked, g)
@@ -79,7 +82,7 @@ func Yield(label string) {
 	}
 	g := Goid()
 	s.mu.Lock()
-	if s.exempt[g] || s.held[g] > 0 {
+	if s.closed || s.exempt[g] || s.held[g] > 0 {
 		s.mu.Unlock()
 
 		return
@@ -202,3 +205,50 @@ func (e *Explorer) Next() bool {
 
 // SetPrefix forces the first choices (replay of a recorded schedule).
 func (e *Explorer) SetPrefix(p []int) { e.prefix = append([]int(nil), p...) }
+
+// RealWait is the quiescence test for real-time (non-bubble) runs: it returns once every
+// goroutine other than the caller is blocked (channel, select, sleep, wait), judged from a
+// full goroutine dump. Goroutines blocked on timers count as blocked: real time is not
+// controlled, a timer may fire at any moment.
+func RealWait() {
+	buf := make([]byte, 1<<20)
+	me := Goid()
+	for spin := 0; ; spin++ {
+		n := runtime.Stack(buf, true)
+		quiet := true
+		for _, blk := range bytes.Split(buf[:n], []byte("\n\n")) {
+			if !bytes.HasPrefix(blk, []byte("goroutine ")) {
+				continue
+			}
+			hdr := blk
+			if i := bytes.IndexByte(blk, '\n'); i >= 0 {
+				hdr = blk[:i]
+			}
+			f := bytes.Fields(hdr)
+			id, _ := strconv.ParseUint(string(f[1]), 10, 64)
+			if id == me {
+				continue
+			}
+			st := hdr[bytes.IndexByte(hdr, '[')+1:]
+			switch {
+			case bytes.HasPrefix(st, []byte("chan receive")), bytes.HasPrefix(st, []byte("chan send")),
+				bytes.HasPrefix(st, []byte("select")), bytes.HasPrefix(st, []byte("sleep")),
+				bytes.HasPrefix(st, []byte("IO wait")), bytes.HasPrefix(st, []byte("sync.Cond.Wait")),
+				bytes.HasPrefix(st, []byte("sync.WaitGroup.Wait")), bytes.HasPrefix(st, []byte("semacquire")),
+				bytes.HasPrefix(st, []byte("finalizer wait")), bytes.HasPrefix(st, []byte("GC ")),
+				bytes.HasPrefix(st, []byte("force gc")), bytes.HasPrefix(st, []byte("syscall")),
+				bytes.HasPrefix(st, []byte("trace reader")), bytes.HasPrefix(st, []byte("chan receive (nil chan)")):
+			default:
+				quiet = false
+			}
+		}
+		if quiet {
+			return
+		}
+		if spin < 50 {
+			runtime.Gosched()
+		} else {
+			time.Sleep(20 * time.Microsecond)
+		}
+	}
+}
